@@ -40,11 +40,11 @@ example : sqRes256 ([0x2a05f20c1, 0x1].headD 0) = true ∧
     perfsqrModTest (perfsqrFold (mod34lsub1 [0xfffffffe00000001, 0])) = true := by decide +kernel
 example : perfsqrModTest (perfsqrFold (mod34lsub1 [5, 1])) = false := by decide +kernel
 
-/-- mpn_perfect_square_p answers the manual's question, given that the final mpn_sqrtrem call reports a
-    zero remainder exactly for squares (`sqrtrem_rn_zero_iff` below discharges that hypothesis from the
-    square-root theorems). -/
+/-- mpn_perfect_square_p answers the manual's question, given that its third test (normalise, zero is a
+    square, then mpn_sqrtrem reports a zero remainder) is right; `mpn_perfect_square_p_spec` below
+    discharges that hypothesis from the square-root theorems. -/
 theorem perfect_square_p_iff (up : List Nat) (hl : Limbs up) (hne : up ≠ []) (hn : up.length + 1 < B)
-    (hs : (sqrtrem up).rn = 0 ↔ ∃ k, val up = k * k) :
+    (hs : perfectSquareFinal up = true ↔ ∃ k, val up = k * k) :
     perfectSquareP up = true ↔ ∃ k, val up = k * k := by
   unfold perfectSquareP
   generalize hA : sqRes256 (up.headD 0) = A
@@ -201,12 +201,17 @@ theorem mpn_sqrtrem_spec (np : List Nat) (hl : Limbs np) (hne : np ≠ []) (hhi 
 example : (sqrtrem [5, 0, 1]).sp = [0, 1] ∧ (sqrtrem [5, 0, 1]).rp = [5] ∧ (sqrtrem [5, 0, 1]).rn = 1 := by
   decide +kernel
 
-/-- mpn_perfect_square_p answers exactly "is `{s1p, n}` a perfect square" (operands with a non-zero most
-    significant limb, which is what its final mpn_sqrtrem call requires): unconditional form of
-    `perfect_square_p_iff`. -/
-theorem mpn_perfect_square_p_spec (up : List Nat) (hl : Limbs up) (hne : up ≠ []) (hn : up.length + 1 < B)
-    (hhi : up.getLastD 0 ≠ 0) : perfectSquareP up = true ↔ ∃ k, val up = k * k :=
-  perfect_square_p_iff up hl hne hn (sqrtrem_full up hl hne hhi).2.2.2.2
+/-- mpn_perfect_square_p answers exactly "is `{s1p, n}` a perfect square" for EVERY limb vector with
+    `n ≥ 1` limbs — the most significant limbs may be zero and the all-zero vector is a square (the C
+    normalises before its final mpn_sqrtrem call, perfect_square_p.c:214-216): unconditional form of
+    `perfect_square_p_iff`.  (`n + 1 < B` is mpn_mod_34lsub1's ASSERT on the size.) -/
+theorem mpn_perfect_square_p_spec (up : List Nat) (hl : Limbs up) (hne : up ≠ []) (hn : up.length + 1 < B) :
+    perfectSquareP up = true ↔ ∃ k, val up = k * k :=
+  perfect_square_p_iff up hl hne hn (perfectSquareFinal_iff up hl)
+
+-- non-vacuity: unnormalised operands, the all-zero vector
+example : perfectSquareP [4, 0] = true ∧ perfectSquareP [0, 0] = true ∧ perfectSquareP [0, 1, 0] = true ∧
+    perfectSquareP [5, 0] = false ∧ perfectSquareP [0, 2, 0, 0] = false := by decide +kernel
 
 /-- mpz_sqrt, mpz_sqrtrem (mpz/sqrt.c, mpz/sqrtrem.c) and mpz_perfect_square_p (mpir.h): negative operands
     raise the square-root exception, otherwise `⌊√u⌋` and `u − ⌊√u⌋²`; the predicate is true exactly
@@ -247,7 +252,7 @@ theorem mpz_sqrt_spec (u : Int) :
               (natLimbs u.toNat).getLastD 0 * B ^ ((natLimbs u.toNat).length - 1) :=
             Nat.mul_le_mul_right _ (Nat.pos_of_ne_zero w3)
           omega
-        have key := mpn_perfect_square_p_spec (natLimbs u.toNat) w2 w1 hlen w3
+        have key := mpn_perfect_square_p_spec (natLimbs u.toNat) w2 w1 hlen
         rw [(val_natLimbs u.toNat).1] at key
         simp only [mpzPerfectSquareP, hgt, if_true]
         rw [key]
